@@ -4,6 +4,7 @@
 # the baseline tests, runs the quick checks against the copy (VERIF_REPO), removes the copy and
 # restores the evidence files.
 set -u
+HERE=$(cd "$(dirname "$0")" && pwd)
 patch=$1; shift
 copy=$(mktemp -d /tmp/mutrepo-XXXXXX)
 cp -r /repo/. "$copy"/
@@ -11,7 +12,7 @@ trap 'rm -rf "$copy" /tmp/verif-evidence-*' EXIT
 git -C "$copy" apply "$patch" || { echo "patch does not apply"; exit 2; }
 ( cd "$copy" && GOFLAGS=-mod=mod GOPROXY=off GOSUMDB=off go build ./... && go test -vet=off -count=1 . 2>&1 | tail -1 )
 for id in "$@"; do
-  out=$(cd /verif && VERIF_REPO="$copy" ./check $id quick 2>&1); rc=$?
+  out=$(cd "$HERE" && VERIF_REPO="$copy" ./check $id quick 2>&1); rc=$?
   echo "== $id rc=$rc $(echo "$out" | grep -c '^VIOLATION') violations; kinds: $(echo "$out" | grep -o 'kind=[^ ]*' | sort | uniq -c | tr '\n' ' ')"
   echo "$out" | grep -i 'infra' | head -3
 done
